@@ -61,8 +61,12 @@ const NAMES: [&str; 3] = [".ignore", ".gitignore", ".hgignore"];
 const VCS_DIRS: [&str; 7] = [".git", ".hg", ".bzr", "_darcs", ".fossil-settings", ".svn", ".pijul"];
 const MARKER: &str = "zz-marker-matches-nothing\n";
 // "a" and "*" without a line terminator: the shortest non-empty ignore files there are
-const CONTENTS: [&str; 10] = ["", "# only a comment\n", "x.log\n", "a/\n", "/test\n", "tests/\n", "!a/\n", "*\n", "a", "*"];
-const CONTENTS_PAIR: [&str; 5] = ["x.log\n", "a/\n", "!a/\n", "/test\n", "*\n"];
+/// stands for an ignore file that is not valid UTF-8 (it cannot be loaded: it is still an
+/// ignore file that was found, it contributes no patterns, and what was loaded before it for
+/// the same directory stays in force)
+const BROKEN: &str = "<<not utf-8>>";
+const CONTENTS: [&str; 11] = ["", "# only a comment\n", "x.log\n", "a/\n", "/test\n", "tests/\n", "!a/\n", "*\n", "a", "*", BROKEN];
+const CONTENTS_PAIR: [&str; 6] = ["x.log\n", "a/\n", "!a/\n", "/test\n", "*\n", BROKEN];
 
 fn tag_for(name: &str) -> Option<ProjectType> {
 	match name {
@@ -408,6 +412,12 @@ fn configs(g: &Group, tier: Tier) -> Vec<Config> {
 		}
 		for s in &slots {
 			for c in CONTENTS {
+				// an unloadable file only in a per-directory slot (an unloadable origin-level
+				// or explicit file makes the whole discovery give up early, which the property
+				// does not speak about)
+				if c == BROKEN && !matches!(s, Slot::Dir { .. }) {
+					continue;
+				}
 				out.push(Config { files: vec![(s.clone(), c.to_string())], watch: w.clone() });
 			}
 		}
@@ -443,6 +453,9 @@ fn configs(g: &Group, tier: Tier) -> Vec<Config> {
 			}
 			for c1 in contents {
 				for c2 in contents {
+					if (*c1 == BROKEN && !matches!(s1, Slot::Dir { .. })) || (*c2 == BROKEN && !matches!(s2, Slot::Dir { .. })) {
+						continue;
+					}
 					out.push(Config { files: vec![(s1.clone(), c1.to_string()), (s2.clone(), c2.to_string())], watch: None });
 				}
 			}
@@ -540,6 +553,9 @@ fn ekey(e: &Entry) -> EntryKey {
 }
 
 fn mlines(content: &str) -> Vec<String> {
+	if content == BROKEN {
+		return vec![];
+	}
 	content.lines().map(str::to_string).collect()
 }
 
@@ -656,7 +672,11 @@ fn write(path: &Path, content: &str) {
 	if let Some(p) = path.parent() {
 		std::fs::create_dir_all(p).expect("mkdir");
 	}
-	std::fs::write(path, content).expect("write");
+	if content == BROKEN {
+		std::fs::write(path, [0xffu8, 0xfe, b'a', b'/', b'\n']).expect("write");
+	} else {
+		std::fs::write(path, content).expect("write");
+	}
 }
 
 impl Ctx {
@@ -746,7 +766,11 @@ fn place(origin: &Path, g: &Group, cfg: &Config, explicit_path: &Path, excludes_
 		} else {
 			pl.created_files.push(path.clone());
 		}
-		std::fs::write(&path, c).expect("write placed file");
+		if c == BROKEN {
+			std::fs::write(&path, [0xffu8, 0xfe, b'a', b'/', b'\n']).expect("write placed file");
+		} else {
+			std::fs::write(&path, c).expect("write placed file");
+		}
 	}
 	pl
 }
@@ -792,7 +816,7 @@ fn alias_check(ctx: &Ctx, g: &Group, mat: &Mat, cfg: &Config, disk: &Disk) -> (u
 	let Some((rel, content)) = disk
 		.files
 		.iter()
-		.find(|(rel, c)| rel.contains('/') && !rel.starts_with(".git/") && !rel.starts_with(".hg/") && NAMES.contains(&Path::new(rel.as_str()).file_name().map_or("", |n| n.to_str().unwrap_or(""))) && !c.is_empty() && c.as_str() != MARKER)
+		.find(|(rel, c)| rel.contains('/') && !rel.starts_with(".git/") && !rel.starts_with(".hg/") && NAMES.contains(&Path::new(rel.as_str()).file_name().map_or("", |n| n.to_str().unwrap_or(""))) && !c.is_empty() && c.as_str() != MARKER && c.as_str() != BROKEN)
 		.map(|(r, c)| (r.clone(), c.clone()))
 	else {
 		return (0, vec![]);
@@ -893,7 +917,8 @@ fn eval_config(ctx: &Ctx, g: &Group, mat: &Mat, cfg: &Config) -> Eval {
 		if got.len() != got_entries.len() {
 			viols.push(("C14/duplicate-entry".into(), format!("result lists a file twice: {:?}", got_entries.iter().map(|e| rel_to(root, &e.path)).collect::<Vec<_>>())));
 		}
-		if !errors.is_empty() {
+		let broken = cfg.files.iter().filter(|(_, c)| c == BROKEN).count();
+		if errors.len() > broken {
 			viols.push(("C14/errors-reported".into(), format!("error list not empty: {:?}", errors.iter().map(ToString::to_string).collect::<Vec<_>>())));
 		}
 		for e in exp.set.difference(&got) {
